@@ -4,6 +4,7 @@ import Oracle.Mailbox
 namespace Oracle.C02
 
 def suites : List (String × Suite) := [
+  ("mailbox-facts", Oracle.Mailbox.factsSuite),
   ("mailbox", Oracle.Mailbox.model),
   ("mailbox-judge-c02", Oracle.Mailbox.judge false)
 ]
